@@ -420,7 +420,7 @@ func (t *tr) goStmt(x *ast.GoStmt) {
 		}
 		t.goSite[x] = name
 	}
-	static := t.g.static && !t.g.effects
+	static := t.g.static && !t.cur.ps.eff
 	t.spawn(name, fn, args, static, t.g.daemon, t.site(x, "go "+name))
 }
 
@@ -491,6 +491,9 @@ func (t *tr) inline(fn *avFunc, args []AV, at ast.Node) []*cont {
 				} else if i < len(args) {
 					v = args[i]
 					i++
+				}
+				if isChanType(f.Type) {
+					v = t.nilToChan(v)
 				}
 				t.define(n.Name, v)
 			}
@@ -585,6 +588,31 @@ func (t *tr) doReturn(x *ast.ReturnStmt) {
 		fr.rets = append(fr.rets, c)
 	}
 	t.cur = nil
+}
+
+func isChanType(e ast.Expr) bool {
+	switch x := e.(type) {
+	case *ast.ChanType:
+		return true
+	case *ast.Ellipsis:
+		return isChanType(x.Elt)
+	}
+	return false
+}
+
+// nilToChan: `nil` bound to a channel-typed parameter is the nil channel (element-wise for lists)
+func (t *tr) nilToChan(v AV) AV {
+	switch x := v.(type) {
+	case avNil:
+		return avChan{t.nilChan()}
+	case avList:
+		var l []AV
+		for _, e := range x.l {
+			l = append(l, t.nilToChan(e))
+		}
+		return avList{l}
+	}
+	return v
 }
 
 // go statements of a function body, not descending into nested function literals
